@@ -64,7 +64,7 @@ open Iavl.Roots
 /-- **the root records stay right** (Model/RootRecords.lean: node keys (version, nonce), root record = the root
     node / a reference to an older node / the empty value, `deleteVersion` re-keying a root that is still used
     to nonce 0, the fallbacks of `GetRoot` and `GetNode`). In every state reached from the empty store by
-    commits and deletions of the lowest version: `GetRoot` resolves the root of every retained version to the
+    commits, deletions of the lowest version and rollbacks (`DeleteVersionsFrom`, also one that deletes every version): `GetRoot` resolves the root of every retained version to the
     key it is stored under, `GetNode` finds every node of every retained version through the key it was
     created under, and `hasVersion` (the predicate behind `VersionExists`, `AvailableVersions` and the
     first-version search of C14) holds exactly for the retained versions - so a deleted version is gone
